@@ -342,6 +342,28 @@ def collision_schemas(ctx):
                 defs[n] = {"type": "object", "properties": props, "required": ["p%d" % j]}
             schema = {"type": "object", "$defs": defs, "properties": {("r%d" % j): {"$ref": "#/$defs/" + n} for j, n in enumerate(g)}}
             out.append((g, variant, schema))
+    # definitions with colliding names that differ ONLY in annotations (defaults at two depths, title, description): still distinct schema types
+    for g in groups:
+        for ki, kind in enumerate(("default", "nested-default", "title", "description", "item-default")):
+            defs = {}
+            for j, n in enumerate(g):
+                d = {"type": "object", "properties": {"attempts": {"type": "integer"}, "jitter": {"type": "boolean"}, "l": {"type": "array", "items": {"type": "string"}}}}
+                if kind == "nested-default":
+                    d["properties"]["inner"] = {"type": "object", "properties": {"w": {"type": "string"}}}
+                if kind == "default":
+                    d["properties"]["attempts"]["default"] = 3 + j
+                    d["properties"]["jitter"]["default"] = (j % 2 == 0)
+                elif kind == "nested-default":
+                    d["properties"]["inner"]["properties"]["w"]["default"] = "w%d" % j
+                elif kind == "title":
+                    d["title"] = "Policy number %d" % j
+                elif kind == "description":
+                    d["properties"]["attempts"]["description"] = "attempts, flavour %d" % j
+                else:
+                    d["properties"]["l"]["default"] = ["v%d" % j]
+                defs[n] = d
+            schema = {"type": "object", "$defs": defs, "properties": {("r%d" % j): {"$ref": "#/$defs/" + n} for j, n in enumerate(g)}}
+            out.append((g, 1000 + ki, schema))
     return out
 
 
@@ -376,7 +398,7 @@ def run_types(ctx):
                 problem = "duplicate type names %r" % sorted(tn)
                 if known_class:
                     key = "C14-dup-type-name-in-progress"
-            elif len(structs) != len(g):
+            elif len(structs) != len(g) * (2 if variant == 1001 else 1):         # (variant 1001: every definition has a nested object of its own)
                 problem = "%d struct types for %d distinct definitions (%r)" % (len(structs), len(g), sorted(tn))
             elif not case["build_ok"]:
                 problem = "emitted code does not compile: %s" % case["build_err"][:300]
